@@ -339,6 +339,34 @@ pub(crate) fn judge_c02(line: &str, reply: &str) -> Result<(), String> {
             (false, _) => return Err(format!("`{}` returned Err although every iterator item is Ok", vec)),
         }
     }
+    // ... and so does the collection of all communities: every item the four community iterators yield,
+    // nothing else (judged as a multiset: the statement fixes no order between the kinds)
+    {
+        let all = group(reply, "all").ok_or("group missing")?;
+        let mut want: Vec<String> = Vec::new();
+        let mut any_err = false;
+        for n in ["comm", "ext", "v6ext", "large"] {
+            match group(reply, n).ok_or("group missing")? {
+                "err" => any_err = true,
+                "none" => {}
+                l => want.extend(list_items(l).iter().map(|s| s.to_string())),
+            }
+        }
+        if !reply.contains("+hang") {
+            match (any_err, all) {
+                (true, "err") => {}
+                (true, _) => return Err("`all_communities` returned Ok although a community accessor is an error".into()),
+                (false, "err") => return Err("`all_communities` returned Err although every community accessor is Ok".into()),
+                (false, l) => {
+                    // `-` is `Ok(None)`
+                    let mut got: Vec<String> = list_items(l).iter().filter(|s| !s.is_empty()).map(|s| s.to_string()).collect();
+                    got.sort(); want.sort();
+                    if got != want { return Err(format!("`all_communities` holds {} communities but the four community iterators yield {} (or different ones)", got.len(), want.len())); }
+                    if (l == "-") != want.is_empty() { return Err("`all_communities` must be None exactly when no community iterator yields an item".into()); }
+                }
+            }
+        }
+    }
     Ok(())
 }
 
